@@ -798,3 +798,296 @@ def gen_around(rng, info, doc, f, t, docs=None):
     gf = rng.choice(inner)
     gt = rng.choice([p for p in inner if p >= gf])
     return ReplaceAroundStep(f, t, gf, gt, Slice.empty, 0, rng.random() < 0.5)
+
+
+# ---------------------------------------------------------------------------------------------
+# aimed shapes the random generators above (almost) never produce
+
+def _spine_chain(node, last):
+    """the chain node, its last (first) child, that child's last (first) child … as long as they are non-leaf, non-text"""
+    out = []
+    n = node
+    while n is not None and not n.is_leaf and not n.is_text:
+        out.append(n)
+        n = n.last_child if last else n.first_child
+    return out
+
+
+def _nest(chain, inner):
+    """empty copies (type, attributes, marks) of the nodes of `chain`, nested, the innermost one holding `inner`"""
+    frag = inner
+    for n in reversed(chain):
+        frag = Fragment.from_(Node(n.type, n.attrs, frag, n.marks))
+    return frag
+
+
+def _edge_types(type_):
+    """the node types that occur anywhere in type_'s content expression (the edges of its automaton)"""
+    seen, todo, out = set(), [type_.content_match], []
+    while todo:
+        m = todo.pop()
+        if id(m) in seen:
+            continue
+        seen.add(id(m))
+        for e in m.next:
+            if e.type not in out:
+                out.append(e.type)
+            todo.append(e.next)
+    return out
+
+
+def gen_two_sided_around(rng, info, doc):
+    """a replace-around step whose slice has *two* top-level nodes and is open on *both* sides, each side one or more levels
+    deep (the open depths differ as often as not), and whose gap lands in a wrapper X that is complete in the slice and sits
+    *below* the top level, next to an open spine: X is the last child of the node at the bottom of the open-start spine
+    (slice <P'(…(X)), N'(…)>(k, b)) or the first child of the node at the bottom of the open-end spine (<P'(…), N'(…(X))>).
+    The open sides re-create the close tokens of the sibling run's preceding sibling and the open tokens of its following
+    sibling, so the step is otherwise plausible; X is a random wrapper, so the run fits into it as often as not.  None when
+    the document has no sibling run with non-leaf neighbours on both sides."""
+    schema = info.schema
+    cands = []
+
+    def walk(node, start):
+        n, pos, offs = node.child_count, start, []
+        for i in range(n):
+            offs.append(pos)
+            pos += node.child(i).node_size
+        offs.append(pos)
+        for i in range(n):
+            c = node.child(i)
+            if c.is_leaf or c.is_text:
+                continue
+            # runs [i+1, j) with the non-leaf neighbours child(i) before and child(j) after
+            for j in range(i + 2, min(n - 1, i + 4) + 1):
+                nx = node.child(j)
+                if not nx.is_leaf and not nx.is_text:
+                    cands.append((offs[i + 1], offs[j], c, nx))
+            walk(c, offs[i] + 1)
+    walk(doc, 0)
+    if not cands:
+        return None
+    deep = [c for c in cands if c[2].child_count and not c[2].last_child.is_leaf and not c[2].last_child.is_text
+            or c[3].child_count and not c[3].first_child.is_leaf and not c[3].first_child.is_text]
+    s, e, prv, nxt = rng.choice(deep if deep and rng.random() < 0.85 else cands)
+    cp, cn = _spine_chain(prv, True), _spine_chain(nxt, False)
+    if rng.random() < 0.75:
+        # mostly stop the spines above the textblocks (a wrapper inside a textblock never fits)
+        cp = [n for n in cp if not n.inline_content] or cp[:1]
+        cn = [n for n in cn if not n.inline_content] or cn[:1]
+    k, b = rng.randint(1, len(cp)), rng.randint(1, len(cn))
+    if rng.random() < 0.6 and len(cp) != len(cn):
+        # the far side deeper than the side that holds the wrapper
+        k, b = (rng.randint(1, len(cp)), len(cn)) if len(cn) > len(cp) else (len(cp), rng.randint(1, len(cn)))
+    types = [t_ for t_ in schema.nodes.values() if not t_.is_leaf and not t_.is_text]
+    at_start = (k < b) if (k != b and rng.random() < 0.7) else rng.random() < 0.5
+    holder = (cp[k - 1] if at_start else cn[b - 1]).type
+    known = [t_ for t_ in types if t_ in _edge_types(holder)]
+    w = rng.choice(known if known and rng.random() < 0.7 else types)
+    x = Node(w, gen_attrs(rng, w), Fragment.empty, [])
+    inner_pos = 1
+    outer_ok = [t_ for t_ in types if (lambda m: m is not None and m.valid_end)(t_.content_match.match_type(w))]
+    if outer_ok and rng.random() < 0.2:
+        # two wrappers; the payload itself must be schema-valid: the outer one may hold the inner one as only child
+        w2 = rng.choice(outer_ok)
+        x = Node(w2, gen_attrs(rng, w2), Fragment.from_(x), [])
+        inner_pos = 2
+    if at_start:
+        content = _nest(cp[:k], Fragment.from_(x)).append(_nest(cn[:b], Fragment.empty))
+        insert = inner_pos                                   # (k + inner_pos) in content coordinates, minus the open start
+    else:
+        content = _nest(cp[:k], Fragment.empty).append(_nest(cn[:b], Fragment.from_(x)))
+        insert = 2 * k + b + inner_pos - k
+    f, t = s - k, e + b
+    if rng.random() < 0.3:
+        # also delete what lies in front of the cut in the node at the bottom of the from-side spine (after it on the to side)
+        try:
+            rf, rt = doc.resolve(f), doc.resolve(t)
+            if rng.random() < 0.5 and rf.index() > 0:
+                f = rf.pos_at_index(rng.randrange(rf.index()))
+            elif rt.index() < rt.parent.child_count:
+                t = rt.end()
+        except Exception:  # noqa: BLE001
+            pass
+    return ReplaceAroundStep(f, t, s, e, Slice(content, k, b), insert, rng.random() < 0.5)
+
+
+def inline_containers(schema):
+    """inline node types that have content (footnote, mention, ruby …) and can be generated"""
+    return [t for t in schema.nodes.values() if t.is_inline and not t.is_text and not t.is_leaf and not t.has_required_attrs()]
+
+
+def gen_inline_container_case(rng, schema):
+    """(doc, ranges, marks): a textblock holding one or two inline nodes *with content*, text inside and around them, all of
+    it in runs carrying a common "theme" mark wherever the respective parent allows it (so marked text inside a container is
+    directly preceded by the marked container itself and directly followed by marked text behind it) plus other marks at
+    random.  `ranges`: ranges that cover a container completely (the whole textblock; from just before to just after the
+    container), that start / end inside it, and that lie wholly inside it.  `marks`: the theme mark first, then marks the
+    textblock allows and a container does not (and the other way round), then any others.  None when the schema has no
+    inline node with content that some top-level textblock can hold."""
+    text_t = schema.nodes.get("text")
+    conts = inline_containers(schema)
+    if text_t is None or not conts or not schema.marks:
+        return None
+    top = schema.top_node_type
+    pairs = [(bt, c) for bt in schema.nodes.values() if bt.is_textblock and not bt.has_required_attrs()
+             and top.content_match.match_type(bt) is not None for c in conts
+             if bt.content_match.match_type(c) is not None and c.content_match.match_type(text_t) is not None]
+    if not pairs:
+        return None
+    mts = list(schema.marks.values())
+    for _ in range(8):
+        bt, c = rng.choice(pairs)
+        # the theme: preferably a mark both the block and the container allow
+        both = [m for m in mts if bt.allows_mark_type(m) and c.allows_mark_type(m)]
+        theme_t = rng.choice(both) if both and rng.random() < 0.8 else rng.choice(mts)
+        theme = Mark(theme_t, gen_attrs(rng, theme_t))
+
+        def marks_for(parent_t, p_theme=0.75):
+            ms = []
+            if parent_t.allows_mark_type(theme_t) and rng.random() < p_theme:
+                ms = reference_add_to_set(theme, ms)
+            if rng.random() < 0.3:
+                names = [m.name for m in mts if parent_t.allows_mark_type(m)]
+                if names:
+                    ms = reference_add_to_set(gen_mark(rng, schema, names), ms)
+            return ms
+
+        kids, spans, pos = [], [], 1
+        can_text = bt.content_match.match_type(text_t) is not None
+        n_cont = rng.choice([1, 1, 2])
+        for i in range(n_cont):
+            if can_text and rng.random() < 0.8:
+                tx = schema.text(gen_text(rng, 1, 3, plain=True), marks_for(bt))
+                kids.append(tx)
+                pos += tx.node_size
+            inner = [schema.text(gen_text(rng, 1, 3, plain=True), marks_for(c, 0.85)) for _k in range(rng.choice([1, 1, 2]))]
+            merged = []
+            for k in inner:
+                if merged and Mark.same_set(k.marks, merged[-1].marks):
+                    merged[-1] = schema.text(merged[-1].text + k.text, merged[-1].marks)
+                else:
+                    merged.append(k)
+            cn = Node(c, gen_attrs(rng, c), Fragment.from_array(merged), marks_for(bt, 0.85))
+            kids.append(cn)
+            spans.append((pos, pos + cn.node_size))
+            pos += cn.node_size
+        if can_text and rng.random() < 0.8:
+            tx = schema.text(gen_text(rng, 1, 3, plain=True), marks_for(bt))
+            kids.append(tx)
+            pos += tx.node_size
+        # the generator joins adjacent equal-marked texts itself (only containers separate them here, so none are adjacent)
+        try:
+            blocks = [Node(bt, gen_attrs(rng, bt), Fragment.from_array(kids), [])]
+            if rng.random() < 0.3:
+                blocks.append(Node(bt, gen_attrs(rng, bt), Fragment.from_array([schema.text("z", marks_for(bt))]) if can_text else Fragment.empty, []))
+            doc = Node(top, {k_: a.default for k_, a in top.attrs.items()}, Fragment.from_array(blocks), [])
+            doc.check()
+        except Exception:  # noqa: BLE001
+            continue
+        end = pos                      # end of the first textblock's content
+        ranges = [(1, end), (0, doc.content.size)]
+        for (a, b) in spans:
+            ranges += [(a, b), (max(1, a - 1), min(end, b + 1)), (1, b), (a, end),
+                       (a + 1, b - 1), (max(1, a - 1), a + 2 if a + 2 < b else b - 1), (b - 2 if b - 2 > a else a + 1, min(end, b + 1))]
+        ranges = [(a, b) for (a, b) in ranges if 0 <= a <= b <= doc.content.size]
+        asym = [m for m in mts if bt.allows_mark_type(m) != c.allows_mark_type(m)]
+        marks = [theme] + [Mark(m, gen_attrs(rng, m)) for m in asym] + [Mark(m, gen_attrs(rng, m)) for m in mts if m not in asym and m is not theme_t]
+        return doc, ranges, marks
+    return None
+
+
+def gen_same_type_run_case(rng, schema):
+    """(doc, from, to, fresh mark, marks present): a textblock in which two to four *adjacent* text nodes carry marks of the
+    same type with different attributes (link a next to link b next to link c), sometimes next to other marks and plain
+    neighbours; the range covers the run; `fresh` is one more mark of that type with attributes of its own.  None when no
+    mark type of the schema has attributes or no top-level textblock allows it."""
+    text_t = schema.nodes.get("text")
+    if text_t is None:
+        return None
+    top = schema.top_node_type
+    cands = [(mt, bt) for mt in schema.marks.values() if mt.attrs for bt in schema.nodes.values()
+             if bt.is_textblock and not bt.has_required_attrs() and bt.allows_mark_type(mt)
+             and bt.content_match.match_type(text_t) is not None and top.content_match.match_type(bt) is not None]
+    if not cands:
+        return None
+    mt, bt = rng.choice(cands)
+    an = list(mt.attrs)
+
+    def with_attrs(i):
+        at = {k: (a.default if a.has_default else 0) for k, a in mt.attrs.items()}
+        at[an[0]] = "v%d" % i if an[0] not in ("level", "lvl", "order", "colspan", "n", "id", "k") else i
+        return Mark(mt, at)
+    others = [m for m in schema.marks.values() if m is not mt and bt.allows_mark_type(m)
+              and not m.excludes(mt) and not mt.excludes(m) and not m.attrs]
+    n = rng.choice([2, 2, 3, 4])
+    segs, present = [], []
+    if rng.random() < 0.6:
+        segs.append(schema.text(gen_text(rng, 1, 3, plain=True), []))
+    f = 1 + sum(x.node_size for x in segs)
+    for i in range(n):
+        mk = with_attrs(i + 1)
+        present.append(mk)
+        ms = [mk]
+        if others and rng.random() < 0.3:
+            ms = reference_add_to_set(Mark(rng.choice(others), {}), ms)
+        segs.append(schema.text(gen_text(rng, 1, 3, plain=True), ms))
+    t = 1 + sum(x.node_size for x in segs)
+    if rng.random() < 0.6:
+        segs.append(schema.text(gen_text(rng, 1, 3, plain=True), []))
+    try:
+        doc = Node(top, {k: a.default for k, a in top.attrs.items()},
+                   Fragment.from_(Node(bt, gen_attrs(rng, bt), Fragment.from_array(segs), [])), [])
+        doc.check()
+    except Exception:  # noqa: BLE001
+        return None
+    if rng.random() < 0.3:
+        f, t = max(1, f - 1), min(doc.content.size - 1, t + 1)
+    return doc, f, t, with_attrs(n + 1), present
+
+
+def gen_mark_boundary_doc(rng, schema):
+    """a document in which a textblock A that restricts marks is directly followed (or preceded) by a textblock B whose
+    content could continue A's by type and whose text carries a mark A forbids — the boundary between the two is a
+    position at which "may these be joined" depends on marks alone.  Sometimes inside a container both fit in.  None when
+    the schema has no such pair of textblocks."""
+    text_t = schema.nodes.get("text")
+    if text_t is None or not schema.marks:
+        return None
+    top = schema.top_node_type
+    tbs = [t for t in schema.nodes.values() if t.is_textblock and not t.has_required_attrs()
+           and t.content_match.match_type(text_t) is not None]
+    triples = []
+    for a in tbs:
+        for b in tbs:
+            for m in schema.marks.values():
+                if b.allows_mark_type(m) and not a.allows_mark_type(m) and a.content_match.match_type(text_t) is not None:
+                    triples.append((a, b, m))
+    rng.shuffle(triples)
+    for (a, b, m) in triples[:6]:
+        mk = Mark(m, gen_attrs(rng, m))
+        seg_b = [schema.text(gen_text(rng, 1, 3, plain=True), [mk])]
+        r = rng.random()
+        if r < 0.3:
+            seg_b = [schema.text(gen_text(rng, 1, 2, plain=True), [])] + seg_b
+        elif r < 0.5:
+            seg_b = seg_b + [schema.text(gen_text(rng, 1, 2, plain=True), [])]
+        na = Node(a, gen_attrs(rng, a), Fragment.from_array([schema.text(gen_text(rng, 1, 3, plain=True), [])]) if rng.random() < 0.8 else Fragment.empty, [])
+        nb = Node(b, gen_attrs(rng, b), Fragment.from_array(seg_b), [])
+        pair = [na, nb] if rng.random() < 0.75 else [nb, na]
+        holders = [top] + [t for t in schema.nodes.values() if not t.is_leaf and not t.is_text and not t.inline_content
+                           and t is not top and not t.has_required_attrs() and top.content_match.match_type(t) is not None]
+        rng.shuffle(holders)
+        for h in ([top] + holders if rng.random() < 0.6 else holders):
+            try:
+                extra = [Node(b, gen_attrs(rng, b), Fragment.from_array([schema.text("t", [])]), [])] if rng.random() < 0.4 else []
+                kids = pair + extra if rng.random() < 0.5 else extra + pair
+                if h is top:
+                    doc = Node(top, {k: x.default for k, x in top.attrs.items()}, Fragment.from_array(kids), [])
+                else:
+                    doc = Node(top, {k: x.default for k, x in top.attrs.items()},
+                               Fragment.from_(Node(h, gen_attrs(rng, h), Fragment.from_array(kids), [])), [])
+                doc.check()
+                return doc
+            except Exception:  # noqa: BLE001
+                continue
+    return None
